@@ -23,6 +23,92 @@ def apply_op(op, a, b):
         return 'foreign:' + type(ex).__name__
 
 
+# ---- the base ontology check of the transcoder test harness (a whole-ontology comparison through another door) ----
+
+BASE_EDITS = ['none', 'ot-description', 'ot-description-newer', 'ot-datatype', 'ot-datatype-newer', 'et-description',
+              'et-description-newer', 'prop-merge', 'prop-merge-newer', 'extra-concept', 'extra-objecttype', 'enum-replaced',
+              'enum-extended-newer', 'without-source', 'without-unused-objecttype']
+
+
+def harness_base(edit):
+    """(base ontology, transcoder class): the base is the transcoder's own ontology after one edit."""
+    from vf.props import c17
+    from edxml.transcode.object import ObjectTranscoderTestHarness
+    from edxml.ontology import DataType
+    T = c17.harness_transcoder()
+    h = ObjectTranscoderTestHarness(T(), 'ra')
+    h.process_object({'type': 'ra', 'name': 'alice', 'sub': {'n': 1}, 'flag': True, 'tags': [], 'items': []}, close=False)
+    h.close()
+    from lxml import etree
+    from edxml.ontology import Ontology
+    doc = etree.fromstring('<edxml xmlns="http://edxml.org/edxml" version="3.0.0"/>')
+    doc.append(h.events.ontology.generate_xml())
+    base = Ontology.create_from_xml(etree.fromstring(etree.tostring(doc))[0])
+    ot = base.get_object_type('o.tag')
+    et = base.get_event_type('type.a')
+    newer = edit.endswith('-newer')
+    if edit.startswith('ot-description'):
+        ot.set_description('another description')
+    elif edit.startswith('ot-datatype'):
+        ot.set_data_type(DataType('string:5:mc:u'))
+    elif edit.startswith('et-description'):
+        et.set_description('another description')
+    elif edit.startswith('prop-merge'):
+        et['first'].set_merge_strategy('set' if et['first'].get_merge_strategy() != 'set' else 'any')
+        et['first'].make_multivalued()
+    elif edit == 'extra-concept':
+        base.create_concept('extra.concept')
+    elif edit == 'extra-objecttype':
+        base.create_object_type('extra.ot')
+    elif edit == 'without-source':
+        # the base ontology lacks a definition the transcoder's ontology has: comparing must not bring it in
+        base.delete_event_source('/test/harness/')
+    elif edit == 'without-unused-objecttype':
+        base.delete_object_type('o.dt')
+    elif edit == 'enum-replaced':
+        base.get_object_type('o.bool').set_data_type(DataType('enum:true:falsy'))
+    elif edit == 'enum-extended-newer':
+        base.get_object_type('o.bool').set_data_type(DataType('string:0:mc:u'))
+    if newer:
+        (et if edit.startswith(('et-', 'prop-')) else (base.get_object_type('o.bool') if edit.startswith('enum') else ot)).set_version(2)
+    return base, T
+
+
+def run_harness_base(edit):
+    from edxml.transcode.object import ObjectTranscoderTestHarness
+    from edxml.error import EDXMLOntologyValidationError
+    from lxml import etree
+    import logging
+    logging.disable(logging.CRITICAL)
+    try:
+        base, T = harness_base(edit)
+    except Exception as ex:
+        return {'skipped': 'setup:' + type(ex).__name__}
+    before = etree.tostring(base.generate_xml())
+    # what the comparison operators say about every pair of definitions the two ontologies share
+    h0 = ObjectTranscoderTestHarness(T(), 'ra')
+    h0.process_object({'type': 'ra', 'name': 'alice', 'sub': {'n': 1}, 'flag': True, 'tags': [], 'items': []}, close=False)
+    h0.close()
+    gen_o = h0.events.ontology
+    incompatible = False
+    for getter in ('get_object_types', 'get_concepts', 'get_event_types', 'get_event_sources'):
+        a, b = getattr(base, getter)(), getattr(gen_o, getter)()
+        for name in set(a) & set(b):
+            if isinstance(apply_op('eq', a[name], b[name]), str):
+                incompatible = True
+    try:
+        h = ObjectTranscoderTestHarness(T(), 'ra', base_ontology=base)
+        h.process_object({'type': 'ra', 'name': 'alice', 'sub': {'n': 1}, 'flag': True, 'tags': [], 'items': []}, close=False)
+        h.close()
+        outcome = 'accepted'
+    except EDXMLOntologyValidationError:
+        outcome = 'rejected'
+    except Exception as ex:
+        outcome = 'raised:' + type(ex).__name__
+    after = etree.tostring(base.generate_xml())
+    return {'outcome': outcome, 'pairs_incompatible': incompatible, 'base_untouched': before == after}
+
+
 def expected_ops(c):
     """Outcome of ==, !=, <, > given the model's comparison result."""
     if c == 'incompat':
@@ -77,6 +163,8 @@ class C09(Property):
 
     def generate(self, rng, tier):
         n = 60 if tier == 'quick' else 1500
+        for edit in BASE_EDITS:
+            yield {'kind': 'harness-base', 'edit': edit, 'defs': []}
         for kind in G.KINDS:
             for i in range(n if kind != 'eventtype' else 2 * n):
                 a = G.base_of(kind)
@@ -96,6 +184,8 @@ class C09(Property):
 
     def observe(self, case):
         kind = case['kind']
+        if kind == 'harness-base':
+            return run_harness_base(case['edit'])
         built = [G.build(kind, s) for s in case['defs']]
         if case.get('mutated_from') is not None:
             a = case['mutated_from']
@@ -128,9 +218,13 @@ class C09(Property):
                 'roundtrip': rt}
 
     def requests(self, case):
+        if case['kind'] == 'harness-base':
+            return []
         return [{'op': 'cmp', 'kind': case['kind'], 'defs': [G.model_def(case['kind'], s) for s in case['defs']]}]
 
     def predict(self, case, replies):
+        if case['kind'] == 'harness-base':
+            return 'undecided'
         m = replies[0]['cmp']
         kind = case['kind']
         defs = case['defs']
@@ -140,7 +234,23 @@ class C09(Property):
                 'same_xml': [[x == y for y in xml_key] for x in xml_key],
                 'roundtrip': [[True, True] if root else None for _ in defs]}
 
+    def fill_undecided(self, case, obs, pred):
+        return obs if pred == 'undecided' else pred
+
     def oracle(self, case, obs):
+        if case['kind'] == 'harness-base':
+            if 'skipped' in obs:
+                return None
+            what = 'transcoder test harness with a base ontology (edit %s)' % case['edit']
+            if obs['outcome'].startswith('raised:'):
+                return '%s: close() raised %s' % (what, obs['outcome'][7:])
+            if not obs['base_untouched']:
+                return '%s: comparing modified the base ontology' % what
+            if obs['pairs_incompatible'] and obs['outcome'] != 'rejected':
+                return '%s: a pair of definitions is in conflict, but the harness accepted the base ontology' % what
+            if not obs['pairs_incompatible'] and obs['outcome'] != 'accepted':
+                return '%s: every pair of shared definitions is equal or a valid upgrade, but the harness rejected the base ontology' % what
+            return None
         ops = obs['ops']
         n = len(ops)
         if not obs['pure']:
@@ -173,6 +283,8 @@ class C09(Property):
 
     def neighbours(self, case, rng):
         out = []
+        if case['kind'] == 'harness-base':
+            return [{'kind': 'harness-base', 'edit': e, 'defs': []} for e in BASE_EDITS]
         if case['kind'] == 'objecttype':
             # an extension in several steps: put the definitions in between into the triple (upgrades must compose)
             for a in case['defs']:
@@ -209,6 +321,8 @@ class C09(Property):
                 yield c
 
     def nontrivial(self, case):
+        if case['kind'] == 'harness-base':
+            return json.dumps(case, sort_keys=True) if case['edit'] != 'none' else None
         keys = {json.dumps(s, sort_keys=True) for s in case['defs']}
         if len(keys) < 2:
             return None
